@@ -30,7 +30,9 @@ from .. import import_gen, tlc
 from ..core import Run, use_repo
 
 WORKERS = 8
-ACTIONS = ("train", "eval", "export", "summary", "cost", "forward")
+ACTIONS = {"PIT": ("train", "eval", "export", "export_nobn", "summary", "cost", "forward"),
+           "SN": ("train", "eval", "export", "summary", "cost", "forward", "icv"),
+           "MPS": ("train", "eval", "export", "summary", "cost", "forward", "nassum")}
 
 
 # ------------------------------------------------------------------------------------------ design runs (background threads)
@@ -93,7 +95,8 @@ def _dump_scenarios(path: str, expected_states: int) -> List[Dict[str, Any]]:
                 bool(re.search(r"reuse \|-> [1-9]", a)), "dw |-> TRUE" in a, bool(re.search(r"sn \|-> <<\[", a)),
                 tuple(re.findall(r'pad \|-> "(\w+)"', a)), tuple(re.findall(r'pm \|-> "(\w+)"', a)),
                 "aff |-> FALSE" in a, "trs |-> FALSE" in a, "grp |-> 2" in a, "hard |-> TRUE" in a, "gum |-> TRUE" in a,
-                tuple(re.findall(r"fav \|-> (\d)", a)))
+                tuple(re.findall(r"fav \|-> (\d)", a)), tuple(re.findall(r"bnref \|-> (\d)", a)), "bn2 |-> TRUE" in a,
+                "bnown |-> TRUE" in a, 'two |-> "sep"' in a)
         out.append({"arch_txt": a, "cfg_txt": c, "hist_txt": h, "feat": feat})
     return out
 
@@ -105,7 +108,7 @@ def _materialize(raw: Dict[str, Any], rng: random.Random, src: str, hist=None) -
     arch = {"dim": a["dim"], "c0": a["c0"], "sp": a["sp"], "two": a["two"], "ca": a["ca"],
             "nodes": [dict(n, ins=list(n["ins"]), sn=[dict(b) for b in n["sn"]], sno=dict(n["sno"])) for n in a["nodes"]]}
     return {"arch": import_gen.norm_iarch(arch), "method": c["method"], "mode": c["mode"], "fold": bool(c["fold"]),
-            "auto": bool(c["auto"]), "hist": h, "seed": rng.randrange(10 ** 6), "src": src}
+            "auto": bool(c["auto"]), "hist": h, "kw": random_kw(rng, c["method"]), "seed": rng.randrange(10 ** 6), "src": src}
 
 
 def _stratified(raws: List[Dict[str, Any]], limit: int, rng: random.Random, key="feat") -> List[Dict[str, Any]]:
@@ -141,10 +144,18 @@ def _hist_valid(h: List[str], wm: bool) -> bool:
 
 
 # ------------------------------------------------------------------------------------------ random scenarios (same grammar, larger)
-def random_history(rng: random.Random, wm: bool, maxlen: int) -> List[str]:
+def random_kw(rng: random.Random, method: str) -> List[str]:
+    """A random subset of the rarely used public constructor keywords (half of the scenarios use the defaults)."""
+    if rng.random() < 0.5:
+        return []
+    ks = import_gen.KEYWORDS[method]
+    return sorted(rng.sample(ks, rng.randint(1, min(3, len(ks)))))
+
+
+def random_history(rng: random.Random, wm: bool, maxlen: int, method: str = "PIT") -> List[str]:
     h: List[str] = []
     for _ in range(rng.randint(0, maxlen)):
-        a = rng.choice([x for x in ACTIONS if not (x == "forward" and wm)])
+        a = rng.choice([x for x in ACTIONS[method] if not (x == "forward" and wm)])
         if a == "train":
             wm = True
         elif a == "eval":
@@ -158,7 +169,7 @@ def random_scenario(rng: random.Random, maxhist: int = 3) -> Dict[str, Any]:
     dim = rng.choice([1, 2]) if method != "MPS" else rng.choice([2, 2, 1])
     c0 = rng.choice([2, 3, 4])
     sp = rng.choice([6, 8, 10]) if dim == 1 else rng.choice([4, 6])
-    two = rng.choice(["no", "no", "add", "cat"])
+    two = rng.choice(["no", "no", "add", "cat", "sep"])
     widths = (2, 3, 4, 6)
     nodes: List[Dict[str, Any]] = []
     cur, ch, s_now, flat = 0, c0, sp, False
@@ -211,9 +222,44 @@ def random_scenario(rng: random.Random, maxhist: int = 3) -> Dict[str, Any]:
             return (sp_in - nd["d"] * (nd["k"] - 1) - 1) // nd["s"] + 1
         return (sp_in - 1) // nd["s"] + 1
 
+    def bn_class(nd):
+        return 1 if (nd["op"] == "lin" or dim == 1) else 2
+
+    def share_bn(nd, width):
+        """BatchNorm sharing patterns on a fresh conv / linear node: (a) the BatchNorm OBJECT of an earlier call site of another
+        layer (same class and width), (c) two BatchNorms in a row."""
+        r = rng.random()
+        if r < 0.12:
+            cands = [i + 1 for i, m in enumerate(nodes) if m["op"] in ("conv", "lin") and not m.get("sn") and m.get("bn")
+                     and not m.get("bnref") and (not m.get("reuse") or m.get("bnown")) and bn_class(m) == bn_class(nd)
+                     and widths_of[i + 1] == width]
+            if cands:
+                nd["bn"], nd["bnref"] = False, rng.choice(cands)
+        elif r < 0.22 and nd.get("bn"):
+            nd["bn2"] = True
+        return nd
+
+    widths_of: Dict[int, int] = {}
     steps = rng.randint(1, 7)
     n_sn = 0
     lin_seen = False
+    if two == "sep":        # two streams: a layer on each input (possibly normalised by ONE BatchNorm object), then merged
+        nodes.append({"op": "in2", "ins": []})
+        w = rng.choice(widths)
+        ka = deco(conv(0, w, same=True))
+        kb = deco(conv(1, w, same=True))
+        kb.pop("pl", None)
+        ka.pop("excl", None)
+        nodes.append(ka)
+        widths_of[2] = w
+        if ka.get("bn") and rng.random() < 0.6:
+            kb["bn"], kb["bnref"] = False, 2
+        elif rng.random() < 0.2 and kb.get("bn"):
+            kb["bn2"] = True
+        nodes.append(kb)
+        widths_of[3] = w
+        nodes.append({"op": "add", "ins": [2, 3]})
+        cur, ch = 4, w
     for _ in range(steps):
         if len(nodes) > 11:
             break
@@ -239,8 +285,9 @@ def random_scenario(rng: random.Random, maxhist: int = 3) -> Dict[str, Any]:
                     n_sn += 1
                     nodes.append(nd)
                 else:
-                    nodes.append(nd)
+                    nodes.append(share_bn(nd, w))
                     s_now = out_sp(nd, s_now)
+                widths_of[T + 1] = w
                 cur, ch = T + 1, w
             elif kind == "dw":
                 nd = deco(conv(cur, ch, dw=True))
@@ -277,6 +324,8 @@ def random_scenario(rng: random.Random, maxhist: int = 3) -> Dict[str, Any]:
                 nodes.append({"op": "add", "ins": [T + 2, cur]})
                 b2 = dict(blk)
                 b2.update({"ins": [T + 3], "reuse": T + 1})
+                if rng.random() < 0.35:      # (b) the second invocation is followed by its own BatchNorm object (or none)
+                    b2.update({"bnown": True, "bn": rng.random() < 0.7, "eps": rng.randrange(2)})
                 nodes.append(b2)
                 nodes.append({"op": "relu", "ins": [T + 4]})
                 nodes.append({"op": "add", "ins": [T + 5, T + 3]})
@@ -297,7 +346,8 @@ def random_scenario(rng: random.Random, maxhist: int = 3) -> Dict[str, Any]:
             kind = rng.choices(["lin", "relu", "drop", "res"], weights=[4, 2, 1, 1.5 if lin_seen else 0])[0]
             if kind == "lin":
                 w = rng.choice(widths)
-                nodes.append(deco({"op": "lin", "ins": [cur], "out": w}))
+                nodes.append(share_bn(deco({"op": "lin", "ins": [cur], "out": w}), w))
+                widths_of[T + 1] = w
                 cur, ch, lin_seen = T + 1, w, True
             elif kind in ("relu", "drop"):
                 nodes.append({"op": kind, "ins": [cur]})
@@ -325,8 +375,8 @@ def random_scenario(rng: random.Random, maxhist: int = 3) -> Dict[str, Any]:
     mode = rng.choice(["train", "eval"])
     return {"arch": import_gen.norm_iarch(arch), "method": method, "mode": mode,
             "fold": method == "PIT" and rng.random() < 0.5, "auto": auto,
-            "hist": random_history(rng, True if method == "SN" else mode == "train", maxhist),
-            "seed": rng.randrange(10 ** 6), "src": "random"}
+            "hist": random_history(rng, True if method == "SN" else mode == "train", maxhist, method),
+            "kw": random_kw(rng, method), "seed": rng.randrange(10 ** 6), "src": "random"}
 
 
 def fixed_scenarios() -> List[Dict[str, Any]]:
@@ -407,6 +457,31 @@ def fixed_scenarios() -> List[Dict[str, Any]]:
         for auto in (True, False):
             for fold in (False, True):
                 scs.append({"arch": g, "method": "PIT", "mode": "eval", "fold": fold, "auto": auto, "seed": 22 + dim, "hist": []})
+    # BatchNorm sharing patterns on a two-stream network: (a) ONE BatchNorm object behind two different layers, (b) one layer
+    # followed by different BatchNorm objects at its two call sites (F51), (c) two BatchNorms in a row (F73 when not folded);
+    # histories with the rarely used export(add_bn=False) followed by observations and a second export()
+    for dim in (1, 2):
+        for pat in ("a", "b", "c"):
+            nb = {"op": "conv", "ins": [1], "out": 3, "k": 3, "pad": "same" if dim == 1 else "int", "bias": False}
+            if pat == "a":
+                nb.update({"bnref": 2})
+            elif pat == "b":
+                nb.update({"reuse": 2, "bnown": True, "bn": True, "eps": 1})
+            else:
+                nb.update({"bn": True, "bn2": True})
+            h = {"dim": dim, "c0": 2, "sp": 6 if dim == 1 else 4, "two": "sep", "nodes": [
+                {"op": "in2", "ins": []},
+                {"op": "conv", "ins": [0], "out": 2 if pat == "b" else 3, "k": 3, "pad": "same" if dim == 1 else "int", "bn": True,
+                 "bias": False},
+                dict(nb, out=2) if pat == "b" else nb,
+                {"op": "add", "ins": [2, 3]}, {"op": "relu", "ins": [4]}, {"op": "flat", "ins": [5]},
+                {"op": "lin", "ins": [6], "out": 3, "bn": True}, {"op": "relu", "ins": [7]},
+                {"op": "lin", "ins": [8], "out": 3, "bnref": 7}]}
+            for fold in (False, True):
+                scs.append({"arch": h, "method": "PIT", "mode": "train", "fold": fold, "auto": True, "seed": 30 + dim,
+                            "hist": ["export_nobn", "eval", "forward"], "kw": ["disc", "notrain"] if fold else ["full", "costd"]})
+            scs.append({"arch": h, "method": "MPS", "mode": "eval", "fold": False, "auto": True, "seed": 32 + dim,
+                        "hist": ["train", "export", "nassum"], "kw": ["pc", "hard"]})
     for s in scs:
         s["arch"] = import_gen.norm_iarch(s["arch"])
         s["src"] = "fixed"
@@ -415,7 +490,7 @@ def fixed_scenarios() -> List[Dict[str, Any]]:
 
 # ------------------------------------------------------------------------------------------ bookkeeping
 def _key(sc):
-    return {k: sc.get(k) for k in ("arch", "method", "mode", "fold", "auto", "hist")}
+    return {k: sc.get(k) for k in ("arch", "method", "mode", "fold", "auto", "hist", "kw")}
 
 
 def _nontrivial(sc) -> bool:
@@ -424,7 +499,7 @@ def _nontrivial(sc) -> bool:
     stride, groups, un-padded) or a non-empty call history.  (Trivial: single-input plain conv/linear net, no history.)"""
     a = sc["arch"]
     return bool(sc.get("hist")) or a.get("two", "no") != "no" or any(
-        n["op"] in import_gen.LAYER_OPS and (n["bn"] or n["pl"] or n["sn"] or n["reuse"] or n["pm"] != "zeros" or n["d"] > 1
+        n["op"] in import_gen.LAYER_OPS and (n["bn"] or n["bnref"] or n["pl"] or n["sn"] or n["reuse"] or n["pm"] != "zeros" or n["d"] > 1
                                              or n["s"] > 1 or n["grp"] > 1 or n["pad"] == "valid" or n["op"] == "lin3")
         for n in a["nodes"])
 
@@ -491,7 +566,7 @@ def _execute_and_validate(R: Run, scs: List[Dict[str, Any]], label: str) -> None
             break
 
 
-SANITY = ("f50", "f51", "f52", "f53", "droppm", "snreset", "stalemode")
+SANITY = ("f50", "f51", "f52", "f53", "f73", "droppm", "snreset", "stalemode", "nobnstick", "fusebybn")
 
 
 def run(tier: str, seed: int, replay=None) -> int:
@@ -506,7 +581,11 @@ def run(tier: str, seed: int, replay=None) -> int:
               "nodes), each with a TLC-enumerated history; (2) configurations: ImportLifeMC_scen_cfg (one layer x padding same/int/"
               "valid/causal x padding_mode zeros/reflect/replicate/circular x dilation x stride x groups x BatchNorm default/no affine/"
               "no running stats/other eps+momentum x SuperNet option presets x linear on 3-D input); (3) histories: every call "
-              f"history of length <= {hl} over train/eval/export/summary/cost/forward of ImportLifeMC_hist{hl} on one-layer networks; "
+              f"history of length <= {hl} over train/eval/export/export(add_bn=False)/summary/cost/forward/get_total_icv/"
+              f"nas_parameters_summary of ImportLifeMC_hist{hl} on one-layer networks; (3b) BatchNorm sharing: ImportLifeMC_scen_bn / "
+              "_scen_bn2 (one BatchNorm object behind two layers, own BatchNorm at a reuse site, two BatchNorms in a row; chains and "
+              "two-stream networks with a second input tensor); every TLC scenario gets a random subset of the rarely used public "
+              "constructor keywords (coverage.public_keywords lists every keyword found in the signatures and the ones not exercised); "
               + ("stratified samples of (1)-(3): 280 / 260 / 360" if quick else "stratified 8000 of (1), all of (2), stratified 5000 of (3) incl. "
                  "every distinct history per method")
               + "; (4) seeded random architectures of the same grammar with up to ~12 nodes, widths 2..6, kernels 1..5, random "
@@ -545,7 +624,7 @@ def run(tier: str, seed: int, replay=None) -> int:
     sfx = "quick" if quick else "thorough"
     dumps = {}
     res = {}
-    for name in ("scen", "scen_cfg", f"hist{hl}"):
+    for name in ("scen", "scen_cfg", "scen_bn", "scen_bn2", f"hist{hl}"):
         dumps[name] = tempfile.mktemp(prefix=f"c07-{name}-", dir=tlc.scratch())
     fg = {name: _Bg(R, "ImportLifeMC", f"ImportLifeMC_{name}", workers=WORKERS if name != "scen_cfg" else 4, timeout=7200,
                     extra=["-dump", dumps[name]]) for name in dumps}
@@ -559,6 +638,7 @@ def run(tier: str, seed: int, replay=None) -> int:
     bg += [_Bg(R, "ImportLifeMC", f"ImportLifeMC_{s}", workers=2, expect_ok=False) for s in SANITY]
     # as-implemented model on the supported space; reference model on the whole grammar; configuration grammar
     bg += [_Bg(R, "ImportLifeMC", f"ImportLifeMC_{c}_{sfx}", workers=WORKERS, timeout=7200) for c in ("ref", "cfg")]
+    bg += [_Bg(R, "ImportLifeMC", f"ImportLifeMC_{c}_quick", workers=WORKERS, timeout=7200) for c in ("bn", "refbn")]
     bg.append(_Bg(R, "ImportLifeMC", f"ImportLifeMC_{sfx}", workers=WORKERS, timeout=7200))
     bg.append(_Bg(R, "ImportLifeMC", "ImportLifeMC_refcfg_quick", workers=WORKERS, timeout=7200))
     if not quick:
@@ -585,6 +665,10 @@ def run(tier: str, seed: int, replay=None) -> int:
         scs.append(_materialize(r, rng, "tlc-structure", hist=rng.choice(hpool[(c["method"], c["mode"])])))
     for r in _stratified(raws["scen_cfg"], 260 if quick else 0, rng):
         scs.append(_materialize(r, rng, "tlc-configuration"))
+    # BatchNorm sharing patterns (chains and two-stream networks), each with a TLC-enumerated history
+    for r in _stratified(raws["scen_bn"], 130 if quick else 0, rng) + _stratified(raws["scen_bn2"], 170 if quick else 4000, rng):
+        c = tlc.parse_value(r["cfg_txt"])
+        scs.append(_materialize(r, rng, "tlc-batchnorm-sharing", hist=rng.choice(hpool[(c["method"], c["mode"])])))
     # every distinct history at least once per method; beyond that stratified by (architecture features, history)
     for r in hraws:
         r["hkey"] = (tlc.parse_value(r["cfg_txt"])["method"], r["hist_txt"])
@@ -599,5 +683,6 @@ def run(tier: str, seed: int, replay=None) -> int:
     for b in bg:
         b.join()
     R.exhaustive = False
+    R.extra["public_keywords"] = import_gen.public_keywords()
     R.extra["tlc_scenarios_all_executed"] = len(scs) == sum(len(v) for v in raws.values())
     return R.finish()
